@@ -22,7 +22,7 @@ CHECK = {
                  "c12_ext_rcode_refuted_prefix", "c12_ext_rcode_kept",
                  "c12_ops_never_panic", "c12_run_never_panics", "c12_no_spurious_truncation_rr",
                  "c12_no_spurious_truncation_rrset", "c12_no_spurious_truncation_question",
-                 "c12_layout_invariant_all_ops", "c12_roundtrip", "c12_header_invariant",
+                 "c12_layout_invariant_all_ops", "c12_roundtrip", "c12_header_invariant", "c12_getters",
                  "c12_component_table_is_rfc_layout"],
     "allowed_axioms": [],
     "suites": [{
